@@ -28,7 +28,7 @@ Init ==
   /\ k = 0
 
 Go(ph, s1) == pc' = ph /\ st' = s1 /\ UNCHANGED cfg
-Prev == IF pc = "recorded" THEN TickF(st) ELSE st
+Prev == IF pc = "recorded" THEN TickF(opts, st) ELSE st
 
 Next ==
   /\ ~st.crash
